@@ -6,6 +6,8 @@
   flipif      every two-armed `if c: A else: B` becomes `if not c: B else: A`
   flipcmp     every `a < b` becomes `b > a` (and <=, >, >= likewise)
   hoistret    every `return <call or arithmetic>` becomes `_ret = ...; return _ret`
+  renpriv     every private module-level function `_f` is renamed `_f_p`, with all its references in the package
+  renparam    every parameter `p` of a private module-level function becomes `p_q` (in its body and in keyword arguments of its call sites)
 """
 import ast, os, shutil, subprocess, sys, tempfile, builtins
 HERE = os.path.dirname(os.path.abspath(__file__))
@@ -91,9 +93,79 @@ class HoistReturn(ast.NodeTransformer):
         return out
 
 
+PRIVATE = set()
+
+
+def collect_private(root):
+    """names of private (single leading underscore) functions defined at module level anywhere in the package"""
+    for r, _, files in os.walk(root):
+        for fn in files:
+            if fn.endswith(".py"):
+                t = ast.parse(open(os.path.join(r, fn)).read())
+                for n in t.body:
+                    if isinstance(n, ast.FunctionDef) and n.name.startswith("_") and not n.name.startswith("__"):
+                        PRIVATE.add(n.name)
+
+
+class RenamePrivate(ast.NodeTransformer):
+    def visit_FunctionDef(self, node):
+        self.generic_visit(node)
+        if node.name in PRIVATE:
+            node.name += "_p"
+        return node
+
+    def visit_Name(self, node):
+        if node.id in PRIVATE:
+            node.id += "_p"
+        return node
+
+    def visit_Attribute(self, node):
+        self.generic_visit(node)
+        if node.attr in PRIVATE:
+            node.attr += "_p"
+        return node
+
+
+class RenameParams(ast.NodeTransformer):
+    """parameters of private module-level functions get a suffix; keyword arguments at call sites of those functions follow"""
+    def visit_Module(self, node):
+        for n in node.body:
+            if isinstance(n, ast.FunctionDef) and n.name in PRIVATE and not n.args.vararg and not n.args.kwarg:
+                params = {a.arg for a in n.args.args + n.args.kwonlyargs}
+                # skip functions that contain nested scopes using the same names (closures): keep the transformation simple and safe
+                if any(isinstance(x, (ast.FunctionDef, ast.Lambda, ast.ClassDef, ast.ListComp, ast.GeneratorExp, ast.SetComp, ast.DictComp)) for x in ast.walk(n) if x is not n):
+                    continue
+                PARAMS_OF[n.name] = params
+                for a in n.args.args + n.args.kwonlyargs:
+                    a.arg += "_q"
+                for x in ast.walk(n):
+                    if isinstance(x, ast.Name) and x.id in params:
+                        x.id += "_q"
+        return node
+
+
+class RenameKeywords(ast.NodeTransformer):
+    def visit_Call(self, node):
+        self.generic_visit(node)
+        f = node.func
+        nm = f.id if isinstance(f, ast.Name) else (f.attr if isinstance(f, ast.Attribute) else None)
+        if nm in PARAMS_OF:
+            for k in node.keywords:
+                if k.arg in PARAMS_OF[nm]:
+                    k.arg += "_q"
+        return node
+
+
+PARAMS_OF = {}
+
+
 def transform(kind, src):
     tree = ast.parse(src)
-    if kind == "rename":
+    if kind == "renparam":
+        tree = RenameKeywords().visit(tree)
+    elif kind == "renpriv":
+        tree = RenamePrivate().visit(tree)
+    elif kind == "rename":
         tree = Renamer().visit(tree)
     elif kind == "flipif":
         tree = FlipIf().visit(tree)
@@ -106,12 +178,22 @@ def transform(kind, src):
 
 
 def main():
-    kinds = [a for a in sys.argv[1:] if not a.startswith("--")] or ["unparse", "rename", "flipif", "flipcmp", "hoistret"]
+    kinds = [a for a in sys.argv[1:] if not a.startswith("--")] or ["unparse", "rename", "flipif", "flipcmp", "hoistret", "renpriv", "renparam"]
+    collect_private("/repo/sigpy")
     bad = 0
     for kind in kinds:
         tmp = tempfile.mkdtemp(prefix="sigverif-benign-")
         try:
             shutil.copytree("/repo/sigpy", os.path.join(tmp, "sigpy"), ignore=shutil.ignore_patterns("__pycache__"))
+            if kind == "renparam":
+                PARAMS_OF.clear()
+                for root, _, files in os.walk(os.path.join(tmp, "sigpy")):
+                    for fn in files:
+                        if fn.endswith(".py"):
+                            p = os.path.join(root, fn)
+                            t = RenameParams().visit(ast.parse(open(p).read()))
+                            ast.fix_missing_locations(t)
+                            open(p, "w").write(ast.unparse(t) + "\n")
             for root, _, files in os.walk(os.path.join(tmp, "sigpy")):
                 for fn in files:
                     if fn.endswith(".py"):
